@@ -226,3 +226,40 @@ Definition chk_contains (filters : list box) (cs : list child) (g : gboxes) : bo
                     | None, Some l => containsb (gb_layer g) l
                     | _, _ => true
                     end) (live cs).
+
+(* ------------------------------------------------------------------ polygonal paths under arbitrary affine transforms *)
+(* Path::new for an UNSTROKED path made of straight segments: `compute_tight_bounds` of a polygonal path is the bounding
+   box of its vertices.  Branch with skew: the path is transformed first, then bounded; branch without skew: the object
+   box is mapped (rect_transform). *)
+Definition pt := (Q * Q)%type.
+Definition apply_ts (t : ts) (p : pt) : pt := (map_x t (fst p) (snd p), map_y t (fst p) (snd p)).
+Definition pt_box (p : pt) : box := mkbox (fst p) (snd p) (fst p) (snd p).
+Definition pts_bbox (l : list pt) : option box := fold_left (fun a p => expand a (pt_box p)) l None.
+Definition path_abs_bbox (abs_ts : ts) (pts : list pt) : option box :=
+  if ts_has_skew abs_ts then pts_bbox (map (apply_ts abs_ts) pts)
+  else match pts_bbox pts with Some b => rect_transform abs_ts b | None => None end.
+Definition mix (l : Q) (p q : pt) : pt := ((1 - l) * fst p + l * fst q, (1 - l) * snd p + l * snd q).
+
+(* a tree of nodes with their absolute boxes: leaves are polygonal paths with their abs_transform, PFixed is any other
+   contribution (image, text, an empty group with filters: a box without modelled points), groups take the union of the
+   children's absolute boxes (Group::calculate_bounding_boxes: abs_bbox.expand(child.abs_bounding_box())) *)
+Inductive ptree := PLeaf (abs_ts : ts) (pts : list pt) | PFixed (b : box) | PGroup (ch : list ptree).
+Fixpoint pt_abs_box (n : ptree) : option box :=
+  match n with
+  | PLeaf a pts => path_abs_bbox a pts
+  | PFixed b => Some b
+  | PGroup ch => fold_left (fun acc c => match pt_abs_box c with Some b => expand acc b | None => acc end) ch None
+  end.
+(* every vertex of every path below n, with the absolute transform it is drawn under *)
+Fixpoint leaf_points (n : ptree) : list (ts * pt) :=
+  match n with
+  | PLeaf a pts => map (fun p => (a, p)) pts
+  | PFixed _ => []
+  | PGroup ch => flat_map leaf_points ch
+  end.
+(* checker for the correspondence: reported object / absolute boxes of a dumped polygonal path *)
+Definition chk_path_boxes (tol : Q) (abs_ts : ts) (pts : list pt) (obj abs : box) : bool :=
+  match pts_bbox pts, path_abs_bbox abs_ts pts with
+  | Some o, Some a => box_close tol o obj && box_close tol a abs
+  | _, _ => false
+  end.
